@@ -17,6 +17,7 @@ _I, _S = frozenset([("n", "Int", ())]), frozenset([("n", "String", ())])
 IMG = {"int": _I, "str": _S, "list[int]": frozenset([("n", "List", (_I,))]), "tuple[int, str]": frozenset([("n", "Tuple", (_I, _S))]), "tuple[str, int]": frozenset([("n", "Tuple", (_S, _I))]),
        "SameK": frozenset([("n", "SameK", ())]), "OtherK": frozenset([("n", "OtherK", ())])}
 STYLES = ["NUMPYDOC", "GOOGLE", "REST"]
+FREE = "whatever the caller passed in"  # a documented 'type' that is prose: the docstring gives no type
 # *_selfnames: explicit (non-receiver) parameters that are NAMED self / cls
 OWNERS = ["function", "method", "ctor", "function_selfnames", "static_selfnames", "function_twinnames"]
 
@@ -77,7 +78,7 @@ def render(cid: int, style: str, owner: str, params: list[tuple[str | None, str 
     if owner == "static_selfnames":
         return f'class K{cid}:\n    @staticmethod\n    def f{cid}({sig}){ret}:\n        """{docstring(style, pdoc, rdoc, "        ")}"""\n        ...\n'
     if owner == "ext_hint":
-        return f'from collections.abc import Callable\nfrom typing import Any, Literal, Optional, Union\n\n\ndef f{cid}({sig}){ret}:\n    """{docstring(style, pdoc, rdoc, "    ")}"""\n    ...\n'
+        return f'from collections.abc import Callable\nfrom typing import Any, Dict, List, Literal, Optional, Union\n\n\ndef f{cid}({sig}){ret}:\n    """{docstring(style, pdoc, rdoc, "    ")}"""\n    ...\n'
     if owner in ("function", "function_selfnames", "function_twinnames"):
         return f'def f{cid}({sig}){ret}:\n    """{docstring(style, pdoc, rdoc, "    ")}"""\n    ...\n'
     if owner == "method":
@@ -110,6 +111,11 @@ def enumerate_cases(tier: str, style: str):
             if tier == "quick" and not (r1[0] == "int" or r2[0] == "int"):
                 continue
             yield "function", [], [r1, r2]
+        # the FIRST entry's type is free text that no type can be made of (only the hint gives a type for it); the
+        # second entry's type still has to reach the SECOND result
+        for h1 in ("int", "str"):
+            for r2 in [x for x in rpairs if x[0] is not None and x[1] is not None]:
+                yield "function", [], [(h1, FREE), r2]
     for h in EXT_HINTS:
         yield "ext_hint", [(h, None)], []
     for doc in (None, "tuple[int, str]", "tuple[int, int]"):
@@ -124,7 +130,7 @@ def enumerate_cases(tier: str, style: str):
 
 # hints whose translation is C05's subject; here only: documented WITHOUT a type, they must come out the same under both
 # preferences and never raise a discrepancy warning (only one source gives a type)
-EXT_HINTS = ['Literal["x"]', "Literal[1, 2]", "int | None", "Optional[str]", "dict[str, int]", "Callable[[int], str]", "list[int | None]", "Union[int, str]", "set[str]", "float", "bool", "Any"]
+EXT_HINTS = ['Literal["x"]', "Literal[1, 2]", "int | None", "Optional[str]", "dict[str, int]", "Callable[[int], str]", "list[int | None]", "Union[int, str]", "set[str]", "float", "bool", "Any", "dict", "list", "tuple", "List[int]", "Dict[str, int]"]
 
 
 def render_default(sp) -> str | None:
@@ -140,7 +146,7 @@ def lab(owner, params, results) -> str:
 
 def run(rep: Report, tier: str, seed: int) -> None:
     rep.rule = (
-        "per parameter and per result: hint in {absent,int,str,list[int],tuple[int,str],tuple[str,int],SameK,OtherK} x docstring type in the same set (SameK/OtherK: classes every case module defines under the same short names); one varied parameter (alone and next to a fixed one) for function/method/constructor and for a function / static method whose explicit parameters are NAMED self and cls, one varied result, two results (numpydoc), a tuple[int, str] return documented by ONE entry (absent / same tuple / tuple[int, int])"
+        "per parameter and per result: hint in {absent,int,str,list[int],tuple[int,str],tuple[str,int],SameK,OtherK} x docstring type in the same set (SameK/OtherK: classes every case module defines under the same short names); one varied parameter (alone and next to a fixed one) for function/method/constructor and for a function / static method whose explicit parameters are NAMED self and cls, one varied result, two results (numpydoc; also with prose in place of the first entry's type), a tuple[int, str] return documented by ONE entry (absent / same tuple / tuple[int, int])"
         + ("; full product for two parameters x 5 result situations" if tier == "thorough" else "")
         + "; x 3 structured docstring styles; every case analysed under all four (preference, warning) pairs; distinct = distinct (style, case label)"
     )
@@ -167,6 +173,8 @@ def run(rep: Report, tier: str, seed: int) -> None:
         return pack(all_cases[keys[0]], per_module=150, header=lambda name: LOCAL_HEADER)
 
     def expected_type(hint, doc, tsp):
+        if doc == FREE:
+            doc = None
         if hint and doc:
             return IMG[hint] if tsp == "CODE" else IMG[doc]
         return IMG[hint] if hint else (IMG[doc] if doc else None)
@@ -265,7 +273,7 @@ def run(rep: Report, tier: str, seed: int) -> None:
                     exp = [expected_type(h, dc, tsp) for h, dc in results]
                     exp = [e for e in exp if e is not None]
                     got = [norm(r.type) for r in sres]
-                    kinds = "+".join("both" if h and dc else "one" for h, dc in results) or "none"
+                    kinds = "+".join(("free" if dc == FREE else "both") if h and dc else "one" for h, dc in results) or "none"
                     if got == exp:
                         rep.ok(f"result-type:{tsp}")
                     else:
@@ -274,9 +282,9 @@ def run(rep: Report, tier: str, seed: int) -> None:
                 fid = f"/f{c.cid}'" if owner != "ctor" else f"/K{c.cid}/__init__'"
                 n_warn = sum(1 for lvl, msg in obs_by[(tsp, "WARN")].logs if lvl == "WARNING" and msg.startswith("Different type hint and docstring types") and fid in msg)
                 n_ign = sum(1 for lvl, msg in obs_by[(tsp, "IGNORE")].logs if lvl == "WARNING" and msg.startswith("Different type hint and docstring types") and fid in msg)
-                want_n = sum(1 for h, dc in params if h and dc and h != dc) + sum(1 for h, dc in (results if owner != "ctor" else []) if h and dc and h != dc)
+                want_n = sum(1 for h, dc in params if h and dc and h != dc) + sum(1 for h, dc in (results if owner != "ctor" else []) if h and dc and dc != FREE and h != dc)
                 if n_warn != want_n:
-                    differing = [(h, dc) for h, dc in [*params, *(results if owner != "ctor" else [])] if h and dc and h != dc]
+                    differing = [(h, dc) for h, dc in [*params, *(results if owner != "ctor" else [])] if h and dc and dc != FREE and h != dc]
                     n_oo = sum(1 for h, dc in differing if sorted(__import__("re").findall(r"\w+", h)) == sorted(__import__("re").findall(r"\w+", dc)))
                     # exactly the order-only conflicts are missing -> the (known) order-insensitive comparison, nothing else
                     order_only = n_oo > 0 and n_warn == want_n - n_oo
